@@ -218,6 +218,11 @@ func sliceHas(v ssa.Value, pred func(ssa.Value) bool) bool {
 		case *ssa.Convert:
 			return walk(x.X, d+1)
 		case *ssa.Alloc:
+			for _, st := range facts.StoresTo(x) {
+				if walk(st.Val, d+1) {
+					return true
+				}
+			}
 			// array/struct temporaries (variadic argument packing): follow the element stores
 			for _, ref := range *x.Referrers() {
 				switch ra := ref.(type) {
